@@ -462,7 +462,7 @@ var _ *pb.SharedGroupProposal
 //@ modifies map(transport.groups)
 
 //@ func github.com/sirupsen/logrus.WithFields
-//@ props C05 C14
+//@ props C05 C14 C20
 //@ assume
 //@ ensures [entry] ret != nil
 //@ modifies nothing
@@ -711,3 +711,52 @@ var _ *pb.SharedGroupProposal
 //@ loop 1
 //@ invariant [none-yet] taken == 0 && this.clusterConn != nil && this.clusterConn.addresses != nil && this.clusterConn.conns != nil && forall j uint64 :: has(this.clusterConn.conns, j) ==> this.clusterConn.conns[j] != nil
 //@ invariant [not-the-last-yet] 0 - 1 <= rangeindex && (rangeindex < len(addresses) - 1 || len(addresses) == 0)
+
+// ---------------------------------------------------------------------------------------------
+// C20/C05: a transport starts with empty registries of its own, lists its own node under the given id and address in the
+// connection book (once), and keeps the book it was given
+//@ func storage/raft.NewTransport
+//@ props C20 C14 C05
+//@ safety UNCLAIMED
+//@ ghost listed int = 0
+//@ at call Conn).AddNode
+//@ requires [C20 lists-its-own-node] $arg0 == clusterConn && $arg1 == nodeId && $arg2 == address && listed == 0
+//@ set listed = 1
+//@ end
+//@ requires [book] clusterConn != nil && clusterConn.addresses != nil && clusterConn.conns != nil && forall j uint64 :: has(clusterConn.conns, j) ==> clusterConn.conns[j] != nil
+//@ ensures [t] ret != nil && fresh(ret) && ret.nodeId == nodeId && ret.address == address && ret.clusterConn == clusterConn
+//@ ensures [C05 empty-registries-of-its-own] ret.groups != nil && fresh(ret.groups) && len(ret.groups) == 0 && ret.nodeClients != nil && fresh(ret.nodeClients) && len(ret.nodeClients) == 0
+//@ ensures [C20 own-node-listed] listed == 1 && has(clusterConn.addresses, nodeId)
+//@ modifies map(clusterConn.addresses), map(clusterConn.conns)
+
+// registering a group's consumer: the first registration takes the slot, a second one is refused and changes nothing
+//@ func (*storage/raft.RaftGroup).RegisterProcessFn
+//@ props C14
+//@ requires [group] this != nil
+//@ ensures [C14 first-registration-wins] (old(this.processFn) == nil ==> isnil(ret) && this.processFn == fn) && (old(this.processFn) != nil ==> ret == ProcessFnAlreadyRegisteredErr && this.processFn == old(this.processFn))
+//@ modifies this.processFn
+//@ func (*storage/raft.RaftGroup).RegisterProcessSnapshotFn
+//@ props C14
+//@ requires [group] this != nil
+//@ ensures [C14 first-registration-wins] (old(this.processSnapshotFn) == nil ==> isnil(ret) && this.processSnapshotFn == fn) && (old(this.processSnapshotFn) != nil ==> ret == ProcessFnAlreadyRegisteredErr && this.processSnapshotFn == old(this.processSnapshotFn))
+//@ modifies this.processSnapshotFn
+//@ func (*storage/raft.RaftGroup).RegisterSnapshotFn
+//@ props C14
+//@ requires [group] this != nil
+//@ ensures [C14 first-registration-wins] (old(this.snapshotFn) == nil ==> isnil(ret) && this.snapshotFn == fn) && (old(this.snapshotFn) != nil ==> ret == SnapshotFnAlreadyRegisteredErr && this.snapshotFn == old(this.snapshotFn))
+//@ modifies this.snapshotFn
+//@ func (*storage/raft.sharedGroupProxy).RegisterProcessFn
+//@ props C14
+//@ requires [group] this != nil
+//@ ensures [C14 first-registration-wins] (old(this.processFn) == nil ==> isnil(ret) && this.processFn == fn) && (old(this.processFn) != nil ==> ret == ProcessFnAlreadyRegisteredErr && this.processFn == old(this.processFn))
+//@ modifies this.processFn
+//@ func (*storage/raft.sharedGroupProxy).RegisterProcessSnapshotFn
+//@ props C14
+//@ requires [group] this != nil
+//@ ensures [C14 first-registration-wins] (old(this.processSnapshotFn) == nil ==> isnil(ret) && this.processSnapshotFn == fn) && (old(this.processSnapshotFn) != nil ==> ret == ProcessFnAlreadyRegisteredErr && this.processSnapshotFn == old(this.processSnapshotFn))
+//@ modifies this.processSnapshotFn
+//@ func (*storage/raft.sharedGroupProxy).RegisterSnapshotFn
+//@ props C14
+//@ requires [group] this != nil
+//@ ensures [C14 first-registration-wins] (old(this.snapshotFn) == nil ==> isnil(ret) && this.snapshotFn == fn) && (old(this.snapshotFn) != nil ==> ret == SnapshotFnAlreadyRegisteredErr && this.snapshotFn == old(this.snapshotFn))
+//@ modifies this.snapshotFn
